@@ -232,12 +232,17 @@ class AliasDir:
         lines = ['<root>']
         n_alias = 0
         names = {}
+        # alias names may coincide with built-in type names (the alias table is consulted first); only names the generator never
+        # writes inside a tree are used, so that every mention is a reference to the alias
+        shadow = ['FLOAT', 'UNICODE_STRING']
         for i, t in enumerate(trees):
             # optionally factor direct children out into their own aliases (alias chains)
             if rng is not None and rng.random() < 0.5:
                 for child in _children(t):
                     if rng.random() < 0.5 and id(child) not in names:
                         nm = 'SUB_%d' % n_alias
+                        if shadow and rng.random() < 0.1:
+                            nm = shadow.pop()
                         n_alias += 1
                         lines.append('<%s> %s </%s>' % (nm, gt.type_xml_body(child, names), nm))
                         if rng.random() < 0.3:
